@@ -1,4 +1,4 @@
-//@@ unit props=C03,C06,C10,C19,C16 rlimit=400
+//@@ unit props=C03,C06,C10,C19,C16,C11 rlimit=400
 // Unit xlsbrec: XLSB record framing (src/xlsb/mod.rs RecordIter), wide strings, cell records (src/xlsb/cells_reader.rs).
 #![allow(unused_imports, dead_code, unused_variables, unused_mut, unused_assignments)]
 #![feature(allocator_api)]
@@ -404,6 +404,13 @@ impl Utf16LeStandIn {
     pub fn decode_without_bom_handling<'a>(&self, bytes: &'a [u8]) -> (r: (Cow<'a, str>, bool))
         ensures cow_chars(r.0) == dec16(bytes@),
     { unimplemented!() }
+    // TRUSTED: A-enc (not called by the code under contract; kept so that a switch to the BOM-removing variant is decided -- it breaks
+    // C03,C19.wide_str_text for a text that starts with U+FEFF -- instead of rejected): encoding_rs "with BOM removal": a leading BOM of
+    // this very encoding is dropped, nothing else is sniffed
+    #[verifier::external_body]
+    pub fn decode_with_bom_removal<'a>(&self, bytes: &'a [u8]) -> (r: (Cow<'a, str>, bool))
+        ensures !has_bom(bytes@) ==> cow_chars(r.0) == dec16(bytes@),
+    { unimplemented!() }
 }
 
 //@@ include common/bytes.rs
@@ -484,10 +491,10 @@ pub closed spec fn edt_mk(value: f64, datetime_type: ExcelDateTimeType, is_1904:
     ExcelDateTime { value, datetime_type, is_1904 }
 }
 //@@ impl src/datatype.rs ExcelDateTime
-//@@ fn src/datatype.rs ExcelDateTime::new props=C10,C16 ret=r
+//@@ fn src/datatype.rs ExcelDateTime::new props=C10,C16,C11 ret=r
 //@@ sig
     ensures
-        //# C10,C16.edt_new_fields
+        //# C10,C16,C11.edt_new_fields
         r == edt_mk(value, datetime_type, is_1904),
 //@@ end
 //@@ endimpl
@@ -501,10 +508,10 @@ pub open spec fn wrap_f64(value: f64, format: Option<CellFormat>, is_1904: bool)
     }
 }
 pub open spec fn opt_fmt(format: Option<&CellFormat>) -> Option<CellFormat> { match format { Some(f) => Some(*f), None => None } }
-//@@ fn src/formats.rs format_excel_f64_ref props=C10,C03,C16 ret=r
+//@@ fn src/formats.rs format_excel_f64_ref props=C10,C03,C16,C11 ret=r
 //@@ sig
     ensures
-        //# C10,C03,C16.f64_wrap
+        //# C10,C03,C16,C11.f64_wrap
         r == wrap_f64(value, opt_fmt(format), is_1904),
 //@@ end
 
@@ -718,7 +725,7 @@ pub open spec fn is_date_fmt(f: Option<CellFormat>) -> bool { f == Some(CellForm
         r is Ok ==> exists|k: nat, t: Seq<u8>| #[trigger] boundary(iter.rem(), k, t) && rec_ok(t) && rec_typ(t) == 0x0094
             && rec_len(t) >= 16 && dims_ok(rec_payload(t), r->Ok_0.dims()),
 //@@ end
-//@@ fn src/xlsb/cells_reader.rs XlsbCellsReader::next_cell props=C03,C10,C16,C19 entry ret=r r4
+//@@ fn src/xlsb/cells_reader.rs XlsbCellsReader::next_cell props=C03,C10,C16,C19,C11 entry ret=r r4
 //@@ sig
     ensures
         //# C03,C10,C16.reader_frame
@@ -729,7 +736,7 @@ pub open spec fn is_date_fmt(f: Option<CellFormat>) -> bool { f == Some(CellForm
         //# C03.cell_pos
         ({ let sc = scan(old(self).rem(), old(self).cur_row()); good_cell(sc, old(self).strs().len() as int) && !cell_rejected(sc->typ, sc->payload)
             ==> r is Ok && r->Ok_0 is Some && r->Ok_0->Some_0.p() == (sc->row, le32(sc->payload) as u32) }),
-        //# C03,C10,C16,C19.cell_value
+        //# C03,C10,C16,C19,C11.cell_value
         ({ let sc = scan(old(self).rem(), old(self).cur_row()); good_cell(sc, old(self).strs().len() as int) && !cell_rejected(sc->typ, sc->payload)
             ==> r is Ok && r->Ok_0 is Some && cell_val_ok(sc->typ, sc->payload, old(self).fmts(), old(self).strs(), old(self).f1904(), r->Ok_0->Some_0.v()) }),
         //# C03.cell_frame
@@ -787,7 +794,7 @@ let verif_out; loop
                         //# C03.value_bool
                         assert(val_bool(p, value));
                     } else if t == 5 || t == 9 {
-                        //# C03,C10,C16.value_real
+                        //# C03,C10,C16,C11.value_real
                         assert(val_real(p, self.formats@, self.is_1904, value));
                     } else if t == 6 || t == 8 {
                         axiom_cow_owned_str_all();
@@ -799,7 +806,7 @@ let verif_out; loop
                         //# C03,C19.value_shared_string
                         assert(val_shared_string(p, self.strings@, value));
                     } else if t == 2 {
-                        //# C03,C10,C16.value_rk
+                        //# C03,C10,C16,C11.value_rk
                         assert(val_rk(p, self.formats@, self.is_1904, value));
                     }
                 }
